@@ -628,7 +628,7 @@ def _bcast_ok(a: tuple, b: tuple) -> bool:
 
 def random_program(rng: np.random.Generator, pid: str, ncalls: int,
                    ops: list[str] | None = None,
-                   dtypes: tuple[str, ...] = ("f8", "f8", "f8", "f4", "i4", "i8", "b1"),
+                   dtypes: tuple[str, ...] = ("f8", "f8", "f8", "f4", "i4", "i8", "b1", "c16"),
                    nouts: int | None = None, ninputs: int | None = None) -> dict:
     g = _Gen(rng, dtypes)
     ops = ops or ALL_OPS
